@@ -8,7 +8,8 @@ PID = "C20"
 TRACE = "Trace_Detect"
 RULE = ("(G) every token string up to the bound over {digit, letter, NL, '{', '}', '-->', space, "
         "WEBVTT, <sami, </tt>, SCC header} enumerated by TLC (MC_Detect) and rendered; (T) random longer "
-        "token strings, Latin-1 noise, every truncation and random splices of valid documents, and "
+        "token strings, Latin-1 noise, every truncation and random splices of valid documents, 22 envelope characters "
+        "(BOM, white space, separators, NUL, case-folding specials) before / after / around / alone with marker strings and documents, and "
         "writer outputs; non-trivial = at least one reader's own detect accepts or raises, or a "
         "writer output; distinct by the rendered string")
 ASSUMPTIONS = ["the six Reader().detect results are observed through the public API in-process",
@@ -88,7 +89,25 @@ def inputs(ctx):
         a, b = rng.choice(docs), rng.choice(docs)
         ins.append({"id": "s%d" % k, "kind": "probe",
                     "text": a[:rng.randrange(len(a) + 1)] + b[rng.randrange(len(b) + 1):]})
+    # envelopes: characters that code likes to strip, fold or split on, put before, after and
+    # around strings the sniffers care about (and alone): a probe that pre-processes its input
+    # (strip, lstrip of a byte order mark, case folding, newline normalisation) answers for a
+    # different string than the readers' own detect
+    bases = ["", "7", "7\n", "7\n00:00:01,000 --> 00:00:02,000\na\n", "{1}{2}a", "{1}{2}", "WEBVTT", "WEBVTT\n\n",
+             "<sami", "<SAMI>", "</tt>", "</TT>", "Scenarist_SCC V1.0", "Scenarist_SCC V1.0\n\n00:00:01:00\t9420",
+             "webvtt", "scenarist_scc v1.0", "a"] + docs[:6 if ctx.quick else len(docs)]
+    n = 0
+    for b in bases:
+        for e in ENVELOPE:
+            for text in (e + b, b + e, e + b + e, e + e + b, e + "\n" + b):
+                if text:
+                    ins.append({"id": "e%d" % n, "kind": "probe", "text": text})
+                    n += 1
     return ins
+
+
+ENVELOPE = ["\ufeff", " ", "\t", "\r", "\n", "\r\n", "\xa0", "\x00", "\x0b", "\x0c", "\x1c", "\x1d", "\x1e", "\x85",
+            "\u2028", "\u2029", "\u200b", "\u3000", "\ufffe", "\ufffd", "\u0130", "\u017f"]
 
 
 def _write(w, s):
